@@ -203,6 +203,10 @@ DataPage(bs, leaf, p, codec, dict, hints) ==
 SumOf(s, f(_)) == FoldLeft(LAMBDA a, x : a + f(x), 0, s)
 CountIf(s, t(_)) == Len(SelectSeq(s, t))
 Tag(pre, probs) == [k \in 1..Len(probs) |-> pre \o probs[k]]
+\* level histogram: how often each level 0..max occurs (size statistics, parquet.thrift SizeStatistics / ColumnIndex 6, 7)
+Hist(levels, max) == [v \in 1..(max + 1) |-> CountIf(levels, LAMBDA x : x = v - 1)]
+IntsOf(lst) == [k \in 1..Len(lst) |-> I(lst[k])]
+ByteLen(vs) == SumOf(vs, LAMBDA v : Len(v))
 
 Chunk(bs, cc, leaf, hints, rgRows) ==
   LET md == Field(cc, 3)
@@ -225,6 +229,13 @@ Chunk(bs, cc, leaf, hints, rgRows) ==
          pageRows(k) == CountIf(dec[k].reps, LAMBDA x : x = 0)
          firstRow[k \in 1..Len(dps)] == IF k = 1 THEN 0 ELSE firstRow[k - 1] + pageRows(k - 1)
          nulls == CountIf(defs, LAMBDA d : d # leaf.maxDef)
+         \* ColumnMetaData 16 size_statistics: 1 unencoded_byte_array_data_bytes, 2 repetition_level_histogram, 3 definition_level_histogram
+         ss == IF Has(md, 16) THEN Field(md, 16) ELSE Absent
+         ssProbs == IF ~Has(md, 16) THEN <<>>
+                    ELSE (IF Has(ss, 2) /\ IntsOf(L(Field(ss, 2))) # Hist(reps, leaf.maxRep) THEN <<"size_statistics.repetition_level_histogram">> ELSE <<>>)
+                      \o (IF Has(ss, 3) /\ IntsOf(L(Field(ss, 3))) # Hist(defs, leaf.maxDef) THEN <<"size_statistics.definition_level_histogram">> ELSE <<>>)
+                      \o (IF Has(ss, 1) /\ leaf.type = 6 /\ ~MalVals(vals) /\ I(Field(ss, 1)) # ByteLen(vals)
+                          THEN <<"size_statistics.unencoded_byte_array_data_bytes">> ELSE <<>>)
          encOf(p) == IF p.type = 0 THEN I(Field(Field(p.hdr, 5), 2)) ELSE IF p.type = 3 THEN I(Field(Field(p.hdr, 8), 4)) ELSE I(Field(Field(p.hdr, 7), 2))
          listed == {I(L(Field(md, 2))[k]) : k \in 1..Len(L(Field(md, 2)))}
          used == {encOf(pages[k]) : k \in 1..Len(pages)} \cup (IF leaf.maxDef > 0 \/ leaf.maxRep > 0 THEN {3} ELSE {})
@@ -243,6 +254,10 @@ Chunk(bs, cc, leaf, hints, rgRows) ==
                           ELSE IF \E k \in 1..Len(dps) : I(Field(locs[k], 1)) # dps[k].off THEN <<"page-location-offset">>
                           ELSE IF \E k \in 1..Len(dps) : I(Field(locs[k], 2)) # dps[k].hlen + dps[k].csize THEN <<"page-location-size">>
                           ELSE IF \E k \in 1..Len(dps) : I(Field(locs[k], 3)) # firstRow[k] THEN <<"page-location-first-row">>
+                          \* OffsetIndex 2 unencoded_byte_array_data_bytes, one per page
+                          ELSE IF Has(oi[1], 2) /\ leaf.type = 6 /\ (\A k \in 1..Len(dps) : ~MalVals(dec[k].vals))
+                                  /\ IntsOf(L(Field(oi[1], 2))) # [k \in 1..Len(dps) |-> ByteLen(dec[k].vals)]
+                               THEN <<"offset-index-unencoded_byte_array_data_bytes">>
                           ELSE <<>>)
          \* column index
          cio == IOr(cc, 6, 0)
@@ -256,6 +271,11 @@ Chunk(bs, cc, leaf, hints, rgRows) ==
                                 \/ (Has(x, 5) /\ Len(L(Field(x, 5))) # Len(dps)) THEN <<"column-index-page-count">>
                              ELSE IF \E k \in 1..Len(dps) : (np[k].v = 1) # (Len(dec[k].vals) = 0) THEN <<"column-index-null-page">>
                              ELSE IF Has(x, 5) /\ \E k \in 1..Len(dps) : I(L(Field(x, 5))[k]) # dec[k].nv - Len(dec[k].vals) THEN <<"column-index-null-count">>
+                             \* 6, 7: per page histograms, one after the other
+                             ELSE IF Has(x, 6) /\ IntsOf(L(Field(x, 6))) # FoldLeft(LAMBDA a, k : a \o Hist(dec[k].reps, leaf.maxRep), <<>>, [k \in 1..Len(dps) |-> k])
+                                  THEN <<"column-index-repetition_level_histograms">>
+                             ELSE IF Has(x, 7) /\ IntsOf(L(Field(x, 7))) # FoldLeft(LAMBDA a, k : a \o Hist(dec[k].defs, leaf.maxDef), <<>>, [k \in 1..Len(dps) |-> k])
+                                  THEN <<"column-index-definition_level_histograms">>
                              ELSE FoldLeft(LAMBDA a, k : a \o (IF np[k].v = 1 THEN <<>> ELSE
                                      BoundProblems(leaf, [t |-> "struct", f |-> <<<<6, L(Field(x, 2))[k]>>, <<5, L(Field(x, 3))[k]>>>>], dec[k].vals, "column-index")),
                                            <<>>, [k \in 1..Len(dps) |-> k]))
@@ -293,7 +313,7 @@ Chunk(bs, cc, leaf, hints, rgRows) ==
            \o (IF Has(md, 12) /\ Has(Field(md, 12), 3) /\ I(Field(Field(md, 12), 3)) # nulls THEN <<"statistics.null_count">> ELSE <<>>)
            \o (IF Has(md, 12) /\ ~MalVals(vals) THEN BoundProblems(leaf, Field(md, 12), vals, "chunk-stats") ELSE <<>>)
            \o (IF crcBad THEN <<"crc">> ELSE <<>>)
-           \o oiProbs \o ciProbs \o bfProbs]
+           \o ssProbs \o oiProbs \o ciProbs \o bfProbs]
 
 ---------------------------------------------------------------------------
 (* the file *)
